@@ -214,6 +214,90 @@ ben('inmem-getlive-compares-unix-milli',['C06','C03','C07','C02'],I,
 		s.notifyWaiters(key)
 		return kvs.Record{}, false''','liveness compared in wall-clock milliseconds (no overflow before the year 292 million)')
 
+# ---- rounds 7-10: variants probing the later monitors
+ben('inmem-put-copies-the-expiry',['C06','C03','C02','C07'],I,
+ '''	record.Version = ulidutils.NewID()
+	s.recs[record.Key] = record
+	s.notifyWaiters(record.Key)
+	return record, nil''','''	record.Version = ulidutils.NewID()
+	if record.ExpiresAt != nil {
+		t := *record.ExpiresAt // own copy: the caller may reuse its variable
+		record.ExpiresAt = &t
+	}
+	s.recs[record.Key] = record
+	s.notifyWaiters(record.Key)
+	return record, nil''','Put stores a copy of the caller ExpiresAt value instead of the caller pointer')
+ben('inmem-wait-caps-the-expiry-timer',['C07','C06','C05'],I,
+ '''			expTmr = time.NewTimer(time.Until(*r.ExpiresAt) + time.Millisecond)''',
+ '''			d := time.Until(*r.ExpiresAt)
+			if d > 24*time.Hour {
+				d = 24 * time.Hour // far-away expiries (incl. saturated durations): look again tomorrow
+			}
+			expTmr = time.NewTimer(d + time.Millisecond)''','the waiter timer is capped at a day (no overflow for never-expiring records, no busy loop)')
+ben('redis-getmany-in-batches-of-128',['C02','C03','C06'],R,
+ '''	res, err := c.rdb.MGet(ctx, rKeys(keys)...).Result()
+	if err != nil {
+		return nil, checkErr(err)
+	}
+	result := make([]*kvs.Record, len(keys))
+	for idx, val := range res {
+		if val == nil {
+			continue
+		}
+		r := db2rec(cast.StringToByteArray(val.(string)))
+		r.Key = keys[idx]
+		result[idx] = &r
+	}
+	return result, nil''','''	result := make([]*kvs.Record, len(keys))
+	for off := 0; off < len(keys); off += 128 {
+		end := off + 128
+		if end > len(keys) {
+			end = len(keys)
+		}
+		res, err := c.rdb.MGet(ctx, rKeys(keys[off:end])...).Result()
+		if err != nil {
+			return nil, checkErr(err)
+		}
+		for idx, val := range res {
+			if val == nil {
+				continue
+			}
+			r := db2rec(cast.StringToByteArray(val.(string)))
+			r.Key = keys[off+idx]
+			result[off+idx] = &r
+		}
+	}
+	return result, nil''','GetMany reads in MGET batches of 128 (indexes right)')
+ben('timeout-one-timer-per-worker-drained',['C12','C13','C05'],T,
+ '''		tmr := time.NewTimer(tmt)
+		select {
+		case <-tmr.C:
+		case <-cc.wakeCh:
+			if !tmr.Stop() {
+				<-tmr.C
+			}
+			misCount = 0
+		}''','''		if tmr == nil {
+			tmr = time.NewTimer(tmt)
+		} else {
+			tmr.Reset(tmt)
+		}
+		select {
+		case <-tmr.C:
+		case <-cc.wakeCh:
+			if !tmr.Stop() {
+				select {
+				case <-tmr.C:
+				default:
+				}
+			}
+			misCount = 0
+		}''','one timer per worker, re-armed; a tick that raced the wake-up is drained')
+M[-1]['also']=('''	misCount := 0
+	var f func()''','''	misCount := 0
+	var tmr *time.Timer
+	var f func()''')
+
 def main():
     wt='/tmp/mkben-wt'
     subprocess.run(['git','-C','/repo','worktree','remove','--force',wt],capture_output=True)
@@ -223,7 +307,9 @@ def main():
         for m in M:
             p=os.path.join(wt,m['file']); s=open(p).read()
             if m['old'] not in s: print('OLD TEXT NOT FOUND:',m['name']); continue
-            open(p,'w').write(s.replace(m['old'],m['new'],1))
+            s2=s.replace(m['old'],m['new'],1)
+            if m.get('also'): s2=s2.replace(m['also'][0],m['also'][1],1)
+            open(p,'w').write(s2)
             r=subprocess.run(['go','build','./...'],cwd=wt,capture_output=True,text=True,env=dict(os.environ,GOFLAGS='-mod=mod',GOPROXY='off',GOSUMDB='off'))
             if r.returncode!=0: print('DOES NOT COMPILE:',m['name'],r.stderr[:300])
             else:
